@@ -81,27 +81,37 @@ func (t *stty) ready() bool {
 	return len(t.in) > 0 || t.drained || t.closed || (t.errAt > 0 && t.reads+1 >= t.errAt)
 }
 
-//go:norace
+// Read is deliberately NOT norace where it fills the caller's buffer: the tty writes the bytes
+// into the slice it is given, and a caller that still lets another thread read that slice (a
+// read buffer reused before its previous contents were consumed) races with this write. Only
+// the bookkeeping (next) is hidden from the detector.
 func (t *stty) Read(p []byte) (int, error) {
+	data, err := t.next()
+	n := copy(p, data)
+	return n, err
+}
+
+//go:norace
+func (t *stty) next() ([]byte, error) {
 	verifrt.Block("tty.Read", t.ready)
 	t.reads++
 	if t.errAt > 0 && t.reads >= t.errAt {
 		t.errAt = 0
-		return 0, errors.New("injected tty read error")
+		return nil, errors.New("injected tty read error")
 	}
 	if len(t.in) > 0 {
-		n := copy(p, t.in[0])
+		d := t.in[0]
 		t.in = t.in[1:]
 		t.dataN++
 		if t.errWith > 0 && t.dataN == t.errWith {
-			return n, errors.New("injected tty read error (with data)")
+			return d, errors.New("injected tty read error (with data)")
 		}
-		return n, nil
+		return d, nil
 	}
 	if t.closed {
-		return 0, errors.New("tty closed")
+		return nil, errors.New("tty closed")
 	}
-	return 0, nil
+	return nil, nil
 }
 
 // Write is deliberately NOT norace: the terminal reads the bytes it is given, and a caller that
